@@ -5,6 +5,7 @@ import TrackVerif.LT.CodecLemmas
 import TrackVerif.LT.TreeLemmas
 import TrackVerif.LT.DecodeLemmas
 import TrackVerif.LT.Spec
+import TrackVerif.LT.SpecFacts
 import TrackVerif.Generated.LT
 /-
   C01 — LapTimer files survive encode → decode → encode unchanged.
@@ -239,6 +240,57 @@ theorem lapdate_reencode (sec : Int) (ns : Nat) :
     simp [Time.lapToks, Time.formatToks, Time.civilOf]
   have hy : (Time.civilOf sec 0).year = (Time.civilOf sec ns).year := by simp [Time.civilOf]
   rw [this, hy]
+
+/-! ### The whole file -/
+
+/-- the facts the structure theorem needs hold of the LapTimer schema (which `schema_matches_spec`
+    ties to types.go on every run): every UnmarshalXML type has a MarshalXML, a marshal-only type
+    is a plain scalar, the only attribute fields are always-written plain integers, element and
+    attribute names are distinct within every struct, every name is a plain XML name -/
+theorem schema_facts : SchemaFacts Spec.schema ∧ NamesOk Spec.schema := ⟨spec_facts, spec_names⟩
+
+/-- **structure theorem** (every schema with those facts, every value, every nesting depth):
+    whatever elements the marshaller prints for a value — omitted fields, nil and non-nil
+    pointers, slices element by element, structs with attributes and children, custom and plain
+    leaves — the decoder, routing attributes and children by name into a destination holding
+    `cur`, ends with exactly the leaf-wise round trip `rtOf`: nothing is lost, duplicated,
+    reordered or attached to the wrong field by the XML layer -/
+theorem decoder_inverts_marshaller (s : Schema) (hs : SchemaFacts s) (f : Nat) (name : String) (om : Bool)
+    (ty : Gen.LtType) (cur v : V) (ts : List Xml.Tree) (q : V) (d : Nat)
+    (hm : marshalTrees s f name om ty v = .ok ts) (hr : rtOf s f om ty cur v = some q) :
+    foldField (unmarshalNode s f) ty cur (entries d ts) = .ok q :=
+  decode_marshal s hs f name om ty cur v ts q d hm hr
+
+/-- **decoding the encoded file, for every database**: if the encoder writes `chars` for `db`
+    and the leaf-wise round trip of `db` is `q`, then the decoder — XML declaration, UTF-8,
+    tokenizer, element stack, content tree, field routing — returns exactly `q` for the file
+    (the declaration's bytes followed by any UTF-8 spelling of the rest of `chars`).  Together
+    with the leaf codec theorems above this reduces "decode ∘ encode" for whole databases to the
+    individual leaf codecs. -/
+theorem decode_of_encode (db q : V) (chars : List Char) (body : List UInt8)
+    (henc : encodeDoc Spec.schema db = .ok chars)
+    (hrt : rtOf Spec.schema 64 false (.named "DB") (zeroOf Spec.schema 8 (.named "DB")) db = some q)
+    (hbody : utf8Decode (body.length + 1) body = some (chars.drop declChars.length)) :
+    decodeDoc Spec.schema SpecSchema.cp1252 (declBytes ++ body) = .ok q := by
+  obtain ⟨t, hm, hok, hname, hc⟩ := encode_renders db chars henc
+  have hdrop : chars.drop declChars.length = '\n' :: Xml.renderTree 0 t := by
+    rw [hc, xmlHeader_eq, List.append_assoc, List.drop_left]; rfl
+  unfold decodeDoc
+  rw [splitDecl_decl]
+  simp only [Outcome.bind, Bool.false_eq_true, if_false]
+  rw [hbody, hdrop]
+  simp only
+  rw [decodeBody_printed Spec.schema "LapTimerDB" t spec_root hname hok]
+  have := decode_marshal Spec.schema spec_facts 64 "LapTimerDB" false (.named "DB") _ db [t] q 0 hm hrt
+  simp only [entries, List.map_cons, List.map_nil] at this
+  rw [foldField_single] at this
+  exact this
+
+/-- non-vacuity: a database with a lap (attribute `index`, dates, durations, fixed-decimal
+    floats, omitted fields) meets the premises of `decode_of_encode` -/
+example : (rtOf Spec.schema 64 false (.named "DB") (zeroOf Spec.schema 8 (.named "DB")) exampleDB).isSome = true ∧
+    (match encodeDoc Spec.schema exampleDB with | .ok _ => true | _ => false) = true := by
+  decide +kernel
 
 /-- non-vacuity: the pivot years and a leap day -/
 example : (dateString Spec.schema "LapDate.String" (-31536000) 5).bind (dateParse Spec.schema "LapDate.UnmarshalXML") = .ok (.time (-31536000) 0) :=
